@@ -26,6 +26,7 @@ import (
 	"github.com/comdex-official/comdex/x/auctionsV2"
 	auctionsV2types "github.com/comdex-official/comdex/x/auctionsV2/types"
 	collectortypes "github.com/comdex-official/comdex/x/collector/types"
+	esmtypes "github.com/comdex-official/comdex/x/esm/types"
 	"github.com/comdex-official/comdex/x/liquidationsV2"
 	liquidationsV2types "github.com/comdex-official/comdex/x/liquidationsV2/types"
 	tokenmintkeeper "github.com/comdex-official/comdex/x/tokenmint/keeper"
@@ -375,6 +376,17 @@ func (e *c11Env) block(dt int64) {
 	e.tr.Line("eng.tick", i64(e.now), outcome, e.state())
 }
 
+// esm sets the emergency-shutdown status of the app the way x/esm stores it (environment event)
+func (e *c11Env) esm(on bool) {
+	e.app.EsmKeeper.SetESMStatus(e.ctx, esmtypes.ESMStatus{AppId: 1, Status: on})
+	flag := "0"
+	if on {
+		flag = "1"
+	}
+	e.tr.Line("eng.esm", flag, e.state())
+	e.tr.Count("esm:" + flag)
+}
+
 func c11Coin(denomIdx int, amt sdk.Int) sdk.Coin {
 	return sdk.Coin{Denom: c11Denoms[denomIdx], Amount: amt}
 }
@@ -424,7 +436,24 @@ func (e *c11Env) begin(cf, wf sdk.Dec) {
 	for i := 0; i < 4; i++ {
 		assets = append(assets, fmt.Sprintf("%d:%d", i+1, i))
 	}
-	e.tr.Line("eng.begin", itoa(e.ver), itoa(e.nUsers), cf.BigInt().String(), wf.BigInt().String(), strings.Join(assets, ","), i64(e.now), e.state())
+	e.tr.Line("eng.begin", itoa(e.ver), itoa(e.nUsers), cf.BigInt().String(), wf.BigInt().String(), strings.Join(assets, ","), i64(e.now), c11DebtBidFloor(), e.state())
+}
+
+// c11DebtBidFloor reads off the real MsgPlaceDebtBidRequest.ValidateBasic what it demands of the bid amount:
+// "-" nothing (negative bids reach the keeper), "0" non-negative, "1" positive.
+func c11DebtBidFloor() string {
+	probe := func(x int64) bool {
+		m := auctiontypes.MsgPlaceDebtBidRequest{Bidder: c11User(0).String(), AuctionId: 1, AppId: 1, AuctionMappingId: 2,
+			Bid: sdk.Coin{Denom: "uharbor", Amount: sdk.NewInt(x)}, ExpectedUserToken: sdk.Coin{Denom: "ucmst", Amount: sdk.NewInt(5)}}
+		return m.ValidateBasic() == nil
+	}
+	switch {
+	case probe(-1):
+		return "-"
+	case probe(0):
+		return "0"
+	}
+	return "1"
 }
 
 // change = factor.MulInt(x).Ceil().TruncateInt() exactly as the handlers compute it
@@ -486,6 +515,39 @@ func (e *c11Env) corpus(base sdk.Context) {
 		e.t.Fatalf("corpus: expected one V2 surplus auction, got %d", len(as))
 	}
 	e.tr.Count("corpus:D5-english")
+	// negative debt bids (x/auction): −1000 is accepted, then −990 (higher than the standing bid) is accepted too; the winner gets nothing
+	e.newBranch(base)
+	e.setup(1, []c11Mapping{{asset: 2, secondary: 3, debt: true, lot: 200000, debtLot: 2000000, factor: sdk.MustNewDecFromStr("0.01")}}, 1, zero, zero, zero, richFunds(3))
+	e.begin(zero, zero)
+	e.block(1)
+	if as := e.auctions(); len(as) == 1 {
+		a := as[0]
+		e.bid(2, a, 2, sdk.NewInt(2000000), 1, a.pay, a.mapping)
+		e.bid(3, a, 2, sdk.NewInt(-1000), 1, a.pay, a.mapping)
+		e.bid(4, a, 2, sdk.NewInt(-990), 1, a.pay, a.mapping)
+		e.bid(2, a, 2, sdk.NewInt(5), 1, a.pay, a.mapping)
+		e.block(301)
+		e.block(1)
+	} else {
+		e.t.Fatalf("corpus: expected one V1 debt auction, got %d", len(as))
+	}
+	e.tr.Count("corpus:v1-debt-negative-bids")
+	// the same with a bid factor of 250 %: after −3 000 000 a bid of 4 500 000 is accepted and minted at close (2 000 000 were on offer)
+	e.newBranch(base)
+	e.setup(1, []c11Mapping{{asset: 2, secondary: 3, debt: true, lot: 200000, debtLot: 2000000, factor: sdk.MustNewDecFromStr("2.5")}}, 1, zero, zero, zero, richFunds(3))
+	e.begin(zero, zero)
+	e.block(1)
+	if as := e.auctions(); len(as) == 1 {
+		a := as[0]
+		e.bid(2, a, 2, sdk.NewInt(2000000), 1, a.pay, a.mapping)
+		e.bid(3, a, 2, sdk.NewInt(-3000000), 1, a.pay, a.mapping)
+		e.bid(4, a, 2, sdk.NewInt(4500000), 1, a.pay, a.mapping)
+		e.block(301)
+		e.block(1)
+	} else {
+		e.t.Fatalf("corpus: expected one V1 debt auction, got %d", len(as))
+	}
+	e.tr.Count("corpus:v1-debt-negative-bids-factor-above-one")
 	// plain V1 surplus with equal / barely improving / non-improving bids, then close
 	e.newBranch(base)
 	e.setup(1, []c11Mapping{{asset: 2, secondary: 3, debt: false, lot: 200000, debtLot: 2000000, factor: sdk.MustNewDecFromStr("0.01")}}, 1, zero, zero, zero, richFunds(3))
@@ -523,6 +585,30 @@ func (e *c11Env) corpus(base sdk.Context) {
 		e.t.Fatalf("corpus: expected one V1 debt auction, got %d", len(as))
 	}
 	e.tr.Count("corpus:v1-debt")
+	// emergency shutdown with standing bids: one surplus and one debt auction, both refunded at the next block
+	e.newBranch(base)
+	e.setup(1, []c11Mapping{{asset: 2, secondary: 3, debt: false, lot: 200000, debtLot: 2000000, factor: sdk.MustNewDecFromStr("0.01")},
+		{asset: 1, secondary: 3, debt: true, lot: 1000, debtLot: 7, factor: sdk.MustNewDecFromStr("0.1")}}, 1, zero, zero, zero, richFunds(3))
+	e.begin(zero, zero)
+	e.block(1)
+	if as := e.auctions(); len(as) == 2 {
+		for _, a := range as {
+			if a.kind == 0 {
+				e.bid(2, a, a.payDenom, sdk.NewInt(5000), 0, sdk.ZeroInt(), a.mapping)
+				e.bid(3, a, a.payDenom, sdk.NewInt(6000), 0, sdk.ZeroInt(), a.mapping)
+			} else {
+				e.bid(4, a, a.lotDenom, sdk.NewInt(5), a.payDenom, a.pay, a.mapping)
+			}
+		}
+		e.esm(true)
+		e.block(1)
+		e.block(1)
+		e.esm(false)
+		e.block(1)
+	} else {
+		e.t.Fatalf("corpus: expected two V1 auctions, got %d", len(as))
+	}
+	e.tr.Count("corpus:v1-esm")
 }
 
 // ---------------------------------------------------------------------------------------------------
@@ -856,7 +942,23 @@ func (e *c11Env) genSequence(base sdk.Context, s int) {
 			limitPct = 100
 		}
 	}
+	esmAt, esmOff := -1, -1
+	if e.rng.Chance(15) {
+		esmAt = e.rng.Intn(nops)
+		if e.rng.Chance(40) {
+			esmOff = esmAt + 1 + e.rng.Intn(10)
+		}
+	}
 	for o := 0; o < nops; o++ {
+		if o == esmAt {
+			e.esm(true)
+			if live := e.auctions(); len(live) > 0 {
+				e.tr.Count(fmt.Sprintf("esm:on-with-%d-live-auctions", len(live)))
+			}
+		}
+		if o == esmOff {
+			e.esm(false)
+		}
 		r := e.rng.Intn(100)
 		valid := e.rng.Chance(78)
 		switch {
